@@ -527,12 +527,12 @@ MANIFEST = {
     "technique": "contract-based verification: per-method functions run on symbolic tables with scipy/lstsq as recording contract stubs (z3 for "
                  "the polynomial calculus), complete enumeration for dispatch/plot; bounded run-time contract on real scipy for exactness",
     "text": "For each method the real function is run on symbolic (V, omega) tables (4-12 volumes, admissible orders) with the scipy interpolator "
-            "replaced by a recording stub: exactly one interpolant is built over (flip ln V, flip ln omega) of the same (thinned) volumes and the "
-            "three outputs are exp(I), -I', -I'' of that object at ln v; for least squares the Vandermonde system, default rcond and P, P', P'' of "
+            "replaced by a recording stub: exactly one interpolant is built over (ln V + c, ln omega) of the same (thinned) volumes, ascending, and the "
+            "three outputs are exp(I), -I', -I'' of that object at ln v + c (c: a shift common to nodes and evaluation points, 0 or the centring of the Lagrange form); for least squares the Vandermonde system, default rcond and P, P', P'' of "
             "the fitted polynomial are proved. interpolate_modes is enumerated with tagged arrays (methods x sizes x sign of the Gamma acoustic "
             "frequencies): own function, configured order, own (q,m) column, same slot, Gamma acoustic slots zero. plot_modes draws omega, gamma, "
             "V dgamma/dV for n = 0,1,2. Bounded: exactness on power-law and log-polynomial data over the extended grid on real scipy.",
     "note": "scipy/numpy numerics trusted (A-SCIPY, A-LSQ); sizes enumerated (values unbounded) because the bodies use len()/strided slices; "
-            "exactness is bounded: 6 (quick) / 150 (thorough) random tables. Known findings: hermite cannot be constructed, akima is NaN outside "
-            "the sampled range.",
+            "exactness is bounded: 6 (quick) / 150 (thorough) random tables of 6-16 volumes, orders up to 8, one tolerance for all methods. Known findings: "
+            "hermite cannot be constructed, akima is NaN outside the sampled range. Fixed (d38ca3d): the uncentred Lagrange form lost two digits per node.",
 }
